@@ -74,7 +74,7 @@ class MarginHook(object):
                 if hook.boundary == "half":
                     y = y - F(1, 2)
                 d = abs(y - round(y))
-                if d != 0 and (hook.min_margin is None or d < hook.min_margin):
+                if d > F(1, 10**7) and (hook.min_margin is None or d < hook.min_margin):
                     hook.min_margin = d
             except Exception:
                 pass
